@@ -32,6 +32,13 @@ theorem C13_pipeline {α : Type} [DecidableEq α] (L R : List α) (n : Nat) :
       d2.edits = editScript L R :=
   C13.pipeline_ok L R n (editScript_Valid L R)
 
+/-- **C13, context bound after `Unify`** for every `L`, `R`, `n` — no hypotheses: in every unified
+chunk at most `n` Emit lines before the first and after the last change, at most `2n` between two. -/
+theorem C13_context_bound {α : Type} [DecidableEq α] (L R : List α) (n : Nat) :
+    ∃ d1 d2, (new L R).addContext? n = some d1 ∧ d1.unify? = .ok d2 ∧
+      ∀ c ∈ d2.chunks, CtxBounded n c.edits :=
+  C13.pipeline_context_bound L R n (editScript_Valid L R)
+
 /-- **C14, normal format applied by the POSIX/GNU rules** — `New` and the full pipeline, no hypotheses. -/
 theorem C14_apply_normal (L R : List Line) (n : Nat) :
     DiffApply.applyNormal (normal (Model.Mdiff.new L R).chunks) L = some R ∧
@@ -39,6 +46,20 @@ theorem C14_apply_normal (L R : List Line) (n : Nat) :
       DiffApply.applyNormal (normal d2.chunks) L = some R :=
   ⟨C14a.apply_normal_new L R (editScript_Valid L R) (C11.editScript_canonical L R),
    C14a.apply_normal_pipeline L R n (editScript_Valid L R) (C11.editScript_canonical L R)⟩
+
+/-- **C14, round trip ∘ pipeline (normal format)** — for `New(L, R)` with newline-free lines, no other
+hypothesis: `Read(Normal(New(L, R)))` returns chunks that are `AllOK` for `L`, `R` and patch `L`
+into `R`; for the pipeline the same under "the unified chunks hold newline-free lines". -/
+theorem C14_normal_readback (L R : List Line) (n : Nat)
+    (hL : ∀ l ∈ L, MdsVerif.Proofs.MdiffFmt.NoNl l) (hR : ∀ l ∈ R, MdsVerif.Proofs.MdiffFmt.NoNl l) :
+    (∃ p, read (readLines (render (normal (Model.Mdiff.new L R).chunks))) = some p ∧
+      AllOK p.chunks L R ∧ patch L p.chunks = R) ∧
+    ∃ d1 d2, (Model.Mdiff.new L R).addContext? n = some d1 ∧ d1.unify? = .ok d2 ∧
+      ((∀ c ∈ d2.chunks, MdsVerif.Proofs.MdiffFmt.EditsNoNl c.edits) →
+        ∃ p, read (readLines (render (normal d2.chunks))) = some p ∧
+          AllOK p.chunks L R ∧ patch L p.chunks = R) :=
+  ⟨C14a.normal_readback_new L R (editScript_Valid L R) (C11.editScript_canonical L R) hL hR,
+   C14a.normal_readback_pipeline L R n (editScript_Valid L R) (C11.editScript_canonical L R)⟩
 
 /-- **C14, context format applied by the POSIX/GNU rules** — no hypotheses. -/
 theorem C14_apply_context (L R : List Line) (n : Nat) (fi : Option FileInfo) :
@@ -48,10 +69,10 @@ theorem C14_apply_context (L R : List Line) (n : Nat) (fi : Option FileInfo) :
   ⟨C14a.apply_context_new L R fi (editScript_Valid L R) (C11.editScript_canonical L R),
    C14a.apply_context_pipeline L R n fi (editScript_Valid L R) (C11.editScript_canonical L R)⟩
 
-/-- **C14, unified format** — partial only in the F6 hypothesis (no chunk with an empty side). -/
+/-- **C14, unified format** — partial only in the F6 hypothesis (no chunk with an empty LEFT range). -/
 theorem C14_apply_unified_partial (L R : List Line) (n : Nat) (fi : Option FileInfo) :
     ∃ d1 d2, (Model.Mdiff.new L R).addContext? n = some d1 ∧ d1.unify? = .ok d2 ∧
-      ((∀ c ∈ d2.chunks, c.lstart < c.lend ∧ c.rstart < c.rend) →
+      ((∀ c ∈ d2.chunks, c.lstart < c.lend) →
         DiffApply.applyUnified (unified d2.chunks fi) L = some R) :=
   C14a.apply_unified_pipeline_partial L R n fi (editScript_Valid L R)
 
